@@ -73,6 +73,8 @@ struct Shared {
     gate: Gate,
     script: Vec<u8>,
     calls: AtomicUsize,
+    /// the wrapped sink's flush fails as well (a dead connection)
+    flush_fails: bool,
 }
 
 impl Shared {
@@ -116,6 +118,20 @@ impl MetricSink for ScriptedSink {
             }
         }
     }
+
+    fn flush(&self) -> io::Result<()> {
+        self.flush_impl()
+    }
+}
+
+impl ScriptedSink {
+    fn flush_impl(&self) -> io::Result<()> {
+        if self.sh.flush_fails {
+            Err(io::Error::new(io::ErrorKind::BrokenPipe, Injected(9000)))
+        } else {
+            Ok(())
+        }
+    }
 }
 
 impl Drop for ScriptedSink {
@@ -135,6 +151,7 @@ pub struct QueueScn {
     pub prog: String,
     pub prods: Vec<String>,
     pub samples: usize,
+    pub flush_fails: bool,
     pub text: String,
 }
 
@@ -151,6 +168,7 @@ pub fn scenario(spec: &crate::Spec) -> QueueScn {
         prog: spec.str("prog", "E0"),
         prods: spec.kv.get("prod").map(|p| p.split(',').map(|s| s.to_string()).collect()).unwrap_or_default(),
         samples: spec.usize("sampler", 0),
+        flush_fails: spec.usize("ff", 0) == 1,
         text: spec.raw.clone(),
     }
 }
@@ -234,6 +252,7 @@ impl Scenario for QueueScn {
             gate: Gate::new(false),
             script: self.script.as_bytes().to_vec(),
             calls: AtomicUsize::new(0),
+            flush_fails: self.flush_fails,
         });
         let scn = self.clone();
         let sh2 = sh.clone();
